@@ -89,7 +89,7 @@ LOWERED = set()     # closures traversed inline at a combinator call (paths.LOWE
 
 
 class PathEnum:
-    def __init__(self, fn, facts, max_paths=20000, start_env=None, versioned=False, frame="", depth=0, inline_new=True, inline_also=None, mark_cycles=False, lower=False):
+    def __init__(self, fn, facts, max_paths=20000, start_env=None, versioned=False, frame="", depth=0, inline_new=True, inline_also=None, mark_cycles=False, lower=False, unroll=False):
         self.fn = fn
         self.facts = facts
         self.versioned = versioned
@@ -98,6 +98,7 @@ class PathEnum:
         self.cont = None            # continuation invoked at `return` of an inlined callee
         self.inline_new = inline_new
         self.inline_also = inline_also    # predicate (path, args): traverse this known crate-local callee inline as well
+        self.unroll = unroll              # go round each loop once more before cutting the path at its head (sees exits taken at the head after an iteration)
         self.lower = lower                # Option/Result combinators given a closure literal are replaced by the branch + closure body they stand for
         self.mark_cycles = mark_cycles    # record an ("enter", block) event for every block that lies on a CFG cycle
         self._cyclic = set(fn.cyclic_blocks()) if mark_cycles else ()
@@ -306,8 +307,11 @@ class PathEnum:
                 raise AnalysisError("more than %d paths in %s" % (self.max_paths, fn.name))
             ebb = FBB(bb, fn, self.frame) if self.frame else bb
             if bb in onpath:
-                self.leaves.append(Leaf("loop", env, conds, trace + [ebb], events, ebb))
-                return
+                if self.unroll and ("again", bb) not in onpath:
+                    onpath = onpath | {("again", bb)}
+                else:
+                    self.leaves.append(Leaf("loop", env, conds, trace + [ebb], events, ebb))
+                    return
             onpath = onpath | {bb}
             trace = trace + [ebb]
             if self.mark_cycles and bb in self._cyclic:
@@ -319,7 +323,15 @@ class PathEnum:
                     lv_term = self.read_place(env, s["place"]) if s["place"]["proj"] else None
                     self._assign(env, s["place"], t)
                     self._track_ref(env, s["place"], s["rv"])
-                    events = events + [("assign", ebb, si, self._evkey(s["place"]), t, lv_term)]
+                    ekey = self._evkey(s["place"])
+                    if self.frame and lv_term is not None and ekey.startswith(self.frame + ":"):
+                        # a write through a reference that is not a parameter (a closure's captured `&mut self.x`):
+                        # name the location by what the reference points at, and let the caller see the new value
+                        rkey = root_key_of_term(lv_term)
+                        if rkey is not None:
+                            ekey = rkey
+                            env["@rootwrite:" + rkey] = t
+                    events = events + [("assign", ebb, si, ekey, t, lv_term)]
                 elif s["k"] == "setdiscr":
                     events = events + [("setdiscr", ebb, si, self._evkey(s["place"]), s["vidx"])]
             t = b["term"]
@@ -545,7 +557,7 @@ class PathEnum:
         the walk resumes in the caller at each of its returns, with the callee's writes through `&mut`
         parameters (and its invalidations by opaque calls) carried back."""
         callee = self.facts.fns[path]
-        child = PathEnum(callee, self.facts, self.max_paths, None, self.versioned, frame=(self.frame + "/" if self.frame else "") + "%s@%d" % (path.rsplit("::", 1)[-1], bb), depth=self.depth + 1, inline_new=self.inline_new, inline_also=self.inline_also, mark_cycles=self.mark_cycles, lower=self.lower)
+        child = PathEnum(callee, self.facts, self.max_paths, None, self.versioned, frame=(self.frame + "/" if self.frame else "") + "%s@%d" % (path.rsplit("::", 1)[-1], bb), depth=self.depth + 1, inline_new=self.inline_new, inline_also=self.inline_also, mark_cycles=self.mark_cycles, lower=self.lower, unroll=self.unroll)
         child.leaves = self.leaves
         cenv = {}
         bases = {}
@@ -590,6 +602,14 @@ class PathEnum:
                             caller._kill_prefix(env2, key)
                             env2[key] = v
                             caller._overlay_parent(env2, key, v)
+            for k, v in cenv2.items():
+                if k.startswith("@rootwrite:"):
+                    if caller.frame:
+                        env2[k] = v
+                    else:
+                        rk = k[len("@rootwrite:"):]
+                        caller._kill_prefix(env2, rk)
+                        env2[rk] = v
             ret = cenv2.get("_0", ("unknown", "unset"))
             if ret_wrap is not None:
                 ret = ret_wrap(ret)
@@ -673,6 +693,16 @@ def known_fns():
         with open(os.path.join(os.path.dirname(__file__), "known_fns.json")) as fh:
             _KNOWN = set(json.load(fh))
     return _KNOWN
+
+
+def root_key_of_term(t):
+    """Place key in the root function's namespace of the location a term denotes: (*_n).field.field ..., else None."""
+    if t[0] == "deref" and t[1][0] in ("arg", "argv") and isinstance(t[1][1], int):
+        return "(*_%d)" % t[1][1]
+    if t[0] == "field" and t[3] is not None:
+        b = root_key_of_term(t[1])
+        return None if b is None else "%s.%s" % (b, t[3])
+    return None
 
 
 def term_place_key(t):
